@@ -9,7 +9,13 @@ import re
 from . import core
 
 
-def hook(trusted, targets):
+VALIDATOR_TIE = ('tied to the '
+                 'hand-written model coq/Model/Validator.v by the *_is_source theorems '
+                 '(coq/Proofs/GenBridgeValidatorProofs.v); trusted: the translator, its signature file '
+                 'tools/py2v_dyn/sigs/validator.json and the py_* vocabulary coq/Gen/DynPrelude.v')
+
+
+def hook(trusted, targets, tie=VALIDATOR_TIE):
     base = list(trusted)
 
     def regenerate():
@@ -18,11 +24,8 @@ def hook(trusted, targets):
         trusted.extend(base)
         refused = [ln.split('REFUSED', 1)[1].strip() for ln in out.split('\n') if 'REFUSED' in ln]
         for m in re.finditer(r'py2v_dyn: (\S+) -> (\S+) (written|unchanged) \(source sha256 ([0-9a-f]+)\)', out):
-            trusted.append('%s regenerated from %s by tools/py2v_dyn on this run (%s; sha256 of source %s); tied to the '
-                           'hand-written model coq/Model/Validator.v by the *_is_source theorems '
-                           '(coq/Proofs/GenBridgeValidatorProofs.v); trusted: the translator, its signature file '
-                           'tools/py2v_dyn/sigs/validator.json and the py_* vocabulary coq/Gen/DynPrelude.v'
-                           % (m.group(2), m.group(1), m.group(3), m.group(4)))
+            trusted.append('%s regenerated from %s by tools/py2v_dyn on this run (%s; sha256 of source %s); %s'
+                           % (m.group(2), m.group(1), m.group(3), m.group(4), tie))
         if rc != 0:
             trusted.append('translator py2v_dyn REFUSED a source on this run (%s); the generated file is stale'
                            % '; '.join(refused))
